@@ -17,7 +17,7 @@ namespace simk {
 const char *const shim_fault_names[F_N] = {
 	"eintr", "send_eagain", "send_short", "recv_short", "recv_eagain", "read_short", "write_short",
 	"write_err", "read_err", "falloc_enospc", "unlink_eacces", "emfile", "mmap_enomem", "epoll_shuffle",
-	"kill_before", "kill_after", "signal", "stall", "write_lost", "small_sndbuf"
+	"kill_before", "kill_after", "signal", "stall", "write_lost", "small_sndbuf", "alloc_enomem"
 };
 
 static ShimCfg g_cfg;
@@ -324,8 +324,19 @@ extern "C" int simk_pthread_setschedparam(pthread_t th, int pol, const struct sc
 }
 
 // ------------------------------------------------------------------ memory
+static bool alloc_fails()
+{
+	if (!in_task() || !g_cfg.rate_alloc) return false;
+	if (!fault_here(F_ALLOC_ENOMEM, g_cfg.rate_alloc, NULL, 0)) return false;
+	errno = ENOMEM;
+	return true;
+}
+extern "C" void *simk_malloc(size_t n) { return alloc_fails() ? NULL : malloc(n); }
+extern "C" void *simk_calloc(size_t a, size_t b) { return alloc_fails() ? NULL : calloc(a, b); }
+
 extern "C" void *simk_realloc(void *p, size_t n)
 {
+	if (n && alloc_fails()) return NULL;      // (the old block stays valid, as with the real thing)
 	if (in_task() && g_cfg.realloc_always_moves && p && n) {
 		size_t old = malloc_usable_size(p);
 		void *q = malloc(n);
